@@ -3,5 +3,6 @@ package main
 func init() {
 	plans["C06"] = Plan{Pkg: pkg("C06"), Steps: []Step{
 		{Run: "TestLimits", Quick: 400, Thorough: 8000, QShards: 8, TShards: 16},
+		{Run: "TestSharedListener", Quick: 320, Thorough: 8000, QShards: 4, TShards: 8},
 	}}
 }
